@@ -154,3 +154,20 @@ Theorem contains_scratch_reset : forall (Pos P : Type) locate_point contains_at 
   snd (pq_contains locate_point contains_at q p) = snd (pq_contains locate_point contains_at (mkPQ None) p).
 Proof. exact @C13_EdgeQuery.contains_scratch_reset. Qed.
 Print Assumptions contains_scratch_reset.
+
+(** EdgeQuery covering cache as the two parallel slices it is (indexCovering / indexCells): for
+    every history of optimized queries, Resets and index changes followed by Reset, each query
+    starts from exactly the top-level cells of the current index with their own cell pointers. *)
+Theorem covering_cache_history : forall (Ix Cid Cptr : Type) (ranges : Ix -> list (Cid * Cptr)) (h : list (@cop Ix)) ix c,
+  cc_ok ranges ix c ->
+  exists s', run (cstep ranges cc_reset) (ix, c) h = Ok (s', cspec ranges ix h).
+Proof. exact @C13_EdgeQuery.covering_cache_history. Qed.
+Print Assumptions covering_cache_history.
+
+(** Reset that forgets to clear indexCells pairs the new covering with the old cell pointers *)
+Theorem reset_keeps_index_cells_refuted :
+  exists h s, run (cstep toy_ranges cc_reset_keeps_cells) (1, cc_new) h
+              = Ok (s, [[(10, 100); (20, 200)]; [(5, 100); (10, 200); (20, 50)]]) /\
+              cspec toy_ranges 1 h = [[(10, 100); (20, 200)]; [(5, 50); (10, 100); (20, 200)]].
+Proof. exact C13_EdgeQuery.reset_keeps_index_cells_refuted. Qed.
+Print Assumptions reset_keeps_index_cells_refuted.
